@@ -4,7 +4,7 @@
    That the Python objects behave like these values is what the correspondence run
    and the frame oracle of this check establish on the implementation. *)
 From Coq Require Import String List Arith.
-From Prov Require Import Str Sexp Tables Nsm Values Record World Interp InterpProofs.
+From Prov Require Import Str Sexp Tables Nsm Values Record World Interp InterpProofs Alias AliasProofs.
 Import ListNotations.
 Open Scope string_scope.
 
@@ -47,3 +47,65 @@ Example C12_unified_fresh :
   nth_error (wdocs (fst (step (fst (step ex_w (OUnified 0))) (OAddNs (CDoc 1) "zz" "http://z/")))) 0
     = nth_error (wdocs ex_w) 0.
 Proof. split; vm_compute; reflexivity. Qed.
+
+(* ------------------------------------------------------------------ the object graph (Alias.v)
+   The theorems above are about document values; these are about the objects: a store of managers, records and
+   bundles that point at each other, in which every call allocates and links exactly as model.py does.  Inv says every
+   stored pointer leads to an object allocated for the same document; it holds after any sequence of calls. *)
+Theorem C12_objects_owned : forall ops, Inv (arun ops).
+Proof. exact arun_inv. Qed.
+Print Assumptions C12_objects_owned.
+
+(* no object — manager, record, bundle — is reached from two different documents, after any sequence of calls
+   (deriving calls, update, add_bundle of a document, deserialisation included) *)
+Theorem C12_no_shared_object : forall ops i j di dj l,
+  hdl (arun ops) i = Some di -> hdl (arun ops) j = Some dj -> di <> dj ->
+  In l (reach (arun ops) di) -> ~ In l (reach (arun ops) dj).
+Proof.
+  intros ops i j di dj l Hi Hj. apply separation; [apply arun_inv | eapply nth_error_In; exact Hi | eapply nth_error_In; exact Hj].
+Qed.
+Print Assumptions C12_no_shared_object.
+
+(* a call — whatever it is, whether it returns or raises half-way — leaves every object reached from a document that is
+   not its target as it was, write counters included, and the document keeps its handle *)
+Theorem C12_object_frame : forall ops o h b,
+  hdl (arun ops) h = Some b -> wtarget (arun ops) o <> Some b ->
+  observe (astep (arun ops) o) b = observe (arun ops) b /\ hdl (astep (arun ops) o) h = Some b.
+Proof. intros ops o h b. apply call_frame, arun_inv. Qed.
+Print Assumptions C12_object_frame.
+
+(* any later history that never targets the document *)
+Theorem C12_object_independent : forall ops later h b,
+  hdl (arun ops) h = Some b -> avoids (arun ops) later b ->
+  observe (fold_left astep later (arun ops)) b = observe (arun ops) b /\ hdl (fold_left astep later (arun ops)) h = Some b.
+Proof. intros ops later h b. apply independent, arun_inv. Qed.
+Print Assumptions C12_object_independent.
+
+(* the result of a deriving call (deserialisation, unified, flattened, a document built from records) is either no new
+   handle at all — flattened() of a bundle-free document "returning the same document", a handle that does not exist —
+   or a document no earlier handle denotes; with C12_no_shared_object: it shares nothing with any of them *)
+Theorem C12_derived_is_new : forall ops o, deriving o = true ->
+  astep (arun ops) o = arun ops \/
+  (adocs (astep (arun ops) o) = (adocs (arun ops) ++ [anext (arun ops)])%list /\ ~ In (anext (arun ops)) (adocs (arun ops))).
+Proof. intros ops o. apply derived_is_new, arun_inv. Qed.
+Print Assumptions C12_derived_is_new.
+
+Theorem C12_flattened_with_bundles_is_new : forall ops i d s ss,
+  hdl (arun ops) i = Some d -> subs_of (arun ops) d = s :: ss ->
+  adocs (astep (arun ops) (AFlattened i)) = (adocs (arun ops) ++ [anext (arun ops)])%list.
+Proof. intros ops i d s ss. apply flattened_with_bundles_is_new, arun_inv. Qed.
+Print Assumptions C12_flattened_with_bundles_is_new.
+
+(* non-vacuity: a document with a bundle and records; unified() and update() into another document; then records,
+   attributes and declarations on the results: the source is observed as before, and the three documents reach 7, 7
+   and 9 objects with nothing in common *)
+Definition ex_ops : list aop :=
+  [ANewDoc; ANewBundle 0; AAddRecs 0 None 2; AAddRecs 0 (Some 0) 1; AUnified 0 1 [1]; ANewDoc; AUpdate 2 0 [None]].
+Definition ex_later : list aop :=
+  [AAddRecs 1 (Some 0) 1; ATouchRec 1 None 0; ATouchNs 2 (Some 0); ANewBundle 2; ATouchRec 2 (Some 0) 0].
+Example C12_objects_compute :
+  avoids (arun ex_ops) ex_later 0 /\
+  observe (fold_left astep ex_later (arun ex_ops)) 0 = observe (arun ex_ops) 0 /\
+  map (fun d => length (reach (fold_left astep ex_later (arun ex_ops)) d)) (adocs (fold_left astep ex_later (arun ex_ops))) = [7; 7; 9] /\
+  map sh_shared (shapes (fold_left astep ex_later (arun ex_ops))) = [[]; [0]; [0; 0]].
+Proof. vm_compute. repeat split; intros E; discriminate E. Qed.
